@@ -179,6 +179,25 @@ struct MAP : Proc {
     VF_COPY_OPS(MAP, MAFilter<T>)
 };
 
+// one FftFilter fed through BOTH overloads: frames of odd length go through process(arr_cmplx) (real part kept), even ones through
+// process(arr_real); the two overloads share one object, so its state must be one state
+struct FFMix : Proc {
+    FftFilter o;
+    explicit FFMix(FftFilter f) : o(std::move(f)) {}
+    void run(const double* in, int n, std::vector<double>& out, std::vector<double>&) override {
+        if (n % 2 == 1) {
+            arr_cmplx x(n);
+            for (int i = 0; i < n; ++i) x[i] = cmplx_t(in[i], 0);
+            arr_cmplx y = o.process(x);
+            for (int i = 0; i < y.size(); ++i) out.push_back(y[i].re);
+        } else {
+            put(out, o.process(mkreal(in, n)));
+        }
+    }
+    uint64_t state() override { auto& oo = o; return VF_TRY(oo, (uint64_t)(mix(HS(o._x), mix(HS(o._olap), (uint64_t)o._nx))), (uint64_t)0); }
+    VF_COPY_OPS(FFMix, FftFilter)
+};
+
 struct Config {
     std::string name;
     int width;     // doubles per unit
@@ -229,6 +248,7 @@ static std::vector<Config> make_configs(bool T) {
         for (int g : {1, 7, block / 2 + 1}) {
             auto sf = [](FftFilter& f) { return VF_TRY(f, (uint64_t)(mix(HS(o._x), mix(HS(o._olap), (uint64_t)o._nx))), (uint64_t)0); };
             add(fmt("FftFilter(real h%d,g%d)", nh, g), 1, g, mk<RR, FftFilter>([nh] { return FftFilter(lcg_arr(nh, 3000 + (uint64_t)nh)); }, sf), nh > 33);
+            if (g == 1) add(fmt("FftFilter(real h%d, both overloads)", nh), 1, 1, [nh]() -> std::unique_ptr<Proc> { return std::unique_ptr<Proc>(new FFMix(FftFilter(lcg_arr(nh, 3000 + (uint64_t)nh)))); }, nh > 33);
             add(fmt("FftFilter(cmplx h%d,g%d)", nh, g), 2, g, mk<CC, FftFilter>([nh] { return FftFilter(lcg_carr(nh, 3500 + (uint64_t)nh)); }, sf), nh > 33);
         }
     }
@@ -300,6 +320,14 @@ static std::vector<Config> make_configs(bool T) {
             mk<RG, NoiseGate>([at, rt, zero] { return NoiseGate(8000, -12.0, at, rt, zero ? 0.0 : 0.0005); },
                               [](NoiseGate& c) { return VF_TRY(c, (uint64_t)(HS(o.lg_, (uint64_t)o.cA_)), (uint64_t)0); }));
     }
+    // gate with zero release (the gain returns to exactly 1) and a hold that several short dips must add up to
+    for (int g : {1, 4})
+        for (double at : {0.0, 0.001}) {
+            add(fmt("NoiseGate(rel0,hold4,att%g,g%d)", at, g), 1, g,
+                mk<RG, NoiseGate>([at] { return NoiseGate(8000, -12.0, at, 0.0, 0.0005); }, [](NoiseGate& c) { return VF_TRY(c, (uint64_t)(HS(o.lg_, (uint64_t)o.cA_)), (uint64_t)0); }));
+            add(fmt("NoiseGate(rel0,hold9,att%g,g%d)", at, g), 1, g,
+                mk<RG, NoiseGate>([at] { return NoiseGate(8000, -12.0, at, 0.0, 0.0011); }, [](NoiseGate& c) { return VF_TRY(c, (uint64_t)(HS(o.lg_, (uint64_t)o.cA_)), (uint64_t)0); }));
+        }
     // dynamics again with 16-sample granules: k granules span several release times, so a gain recovery sits inside the stream
     add("Compressor(tc1,g16)", 1, 16, mk<RG, Compressor>([] { return Compressor(8000, -20.0, 4, 6.0, 0.0005, 0.002); }, [](Compressor& c) { return VF_TRY(c, (uint64_t)(HS(o.gs_)), (uint64_t)0); }));
     add("Compressor(hard,g16)", 1, 16, mk<RG, Compressor>([] { return Compressor(8000, -12.0, 8, 0.0, 0.0, 0.004); }, [](Compressor& c) { return VF_TRY(c, (uint64_t)(HS(o.gs_)), (uint64_t)0); }));
@@ -356,7 +384,8 @@ static double letter_val(int letter, int comp, long long i) {
     case 1: return (i % 5 == 2) ? (comp == 0 ? 1.0 : -0.5) : 0.0;                    // impulse train
     case 2: return (i >= 7) ? (comp % 2 == 0 ? 0.75 : 0.25) : 0.0;                   // step
     case 3: return (i == 5 && comp % 2 == 0) ? 1e6 : 1e-3 * lcg_val(650 + (uint64_t)comp, (uint64_t)i);   // 180 dB click in low-level noise
-    default: return (i < 24) ? 0.9 * (i % 2 ? -1.0 : 1.0) : 0.05 * lcg_val(660 + (uint64_t)comp, (uint64_t)i);     // loud burst, then a quiet passage
+    case 4: return (i < 24) ? 0.9 * (i % 2 ? -1.0 : 1.0) : 0.05 * lcg_val(660 + (uint64_t)comp, (uint64_t)i);     // loud burst, then a quiet passage
+    default: return (i % 11 >= 4 && i % 11 <= 6) ? 1e-3 * lcg_val(670 + (uint64_t)comp, (uint64_t)i) : 0.9 * (i % 2 ? -1.0 : 1.0);   // loud, with a 3-sample dip every 11 samples
     }
 }
 static std::vector<double> make_stream(const Config& c, int granules, int letter, int tagshift = 0) {
@@ -426,7 +455,7 @@ int main(int argc, char** argv) {
     for (size_t ci = 0; ci < C.size(); ++ci) {
         const Config& c = C[ci];
         const uint64_t chash = fnv(c.name);
-        for (int letter = 0; letter < 5; ++letter) {
+        for (int letter = 0; letter < 6; ++letter) {
             // ---------------- mode comp: all compositions of K1 granules
             if (ctx.take("frame.comp", P().kv("config", c.name).kv("letter", letter).kv("k", K1))) {
                 auto stream = make_stream(c, K1, letter);
